@@ -46,7 +46,12 @@ def cert_stage(res, tier, need, kernel_theorems, prop, extra_caps=()):
     # kernel evaluation + instantiated theorems for the repo corpus and the curated corpus
     kcaps = [c for c in list(repo_caps) + list(extra_caps) if ce.usable(c)]
     if tier == 'quick':
-        kcaps = [c for c in kcaps if len(c.dfa['states']) <= 400]
+        # every curated / compiled definition, and a seed-rotated sample of the repo corpus (the extracted
+        # checker above has already covered every definition)
+        rk = random.Random(seed() * 977 + 5)
+        rc = [c for c in repo_caps if ce.usable(c) and len(c.dfa['states']) <= 400]
+        rk.shuffle(rc)
+        kcaps = [c for c in extra_caps if ce.usable(c) and len(c.dfa['states']) <= 400] + rc[:60]
     kres = certs.kernel_certs(kcaps, kernel_theorems, prop)
     for c in kcaps:
         ok, msg, st = kres[c.id or c.name]
@@ -149,12 +154,13 @@ def curated_caps(sets, fs):
 
 # ------------------------------------------------------------------------------------------------
 def engine_property(prop, tier, theorems, need, kernel_theorems, fss, modes, want, judge, rule, assumptions, trace=False):
+    import time as _t
     res = Result(prop, tier)
-    framework(res, theorems)
-    sets = ce.compiled_sets(tier, fss)
-    failing, drv = cert_stage(res, tier, need, kernel_theorems, prop, curated_caps(sets, fss[0]))
+    t0 = _t.time(); framework(res, theorems); log('stage framework %.1fs' % (_t.time() - t0))
+    t0 = _t.time(); sets = ce.compiled_sets(tier, fss); log('stage harness %.1fs' % (_t.time() - t0))
+    t0 = _t.time(); failing, drv = cert_stage(res, tier, need, kernel_theorems, prop, curated_caps(sets, fss[0])); log('stage certificates %.1fs' % (_t.time() - t0))
     report_cert_failures(res, failing, drv, judge)
-    mism = ce.run_k2(res, sets, fss, tier, modes=modes, drv=drv)
+    t0 = _t.time(); mism = ce.run_k2(res, sets, fss, tier, modes=modes, drv=drv); log('stage k2 %.1fs' % (_t.time() - t0))
     nm = report_k2(res, mism, sets, want, prop)
     res.oblige(nm == 0)
     res.cov['disagreements_checked'] = len(mism)
@@ -171,7 +177,7 @@ RULE_ENGINE = ('every accepted definition of the repo / curated / seeded random 
 
 
 def check_C01(tier):
-    return engine_property('C01', tier, ['C01_maximal_munch'], ['dfa_ok', 'sim_ok'], [certs.TH_C01], ['tc', 'sm'], (0,),
+    return engine_property('C01', tier, ['C01_maximal_munch', 'C01_stream_eq_spec'], ['dfa_ok', 'sim_ok', 'exact_ok'], [certs.TH_C01, certs.TH_C01S], ['tc', 'sm'], (0,),
                            {'ok-item', 'spec-ok-item', 'graph-differs'}, {'ok-item'},
                            RULE_ENGINE % ('dfa_ok+sim_ok', 'Ok items (variant, span) and item kinds, per feature set, against the graph executor and the DFA-level specification'),
                            ASSUME_ENGINE)
@@ -195,7 +201,7 @@ def check_C03(tier):
 
 def check_C07(tier):
     res = Result('C07', tier)
-    framework(res, ['C07_next_prefix_safe', 'C07_next_prefix_none'])
+    framework(res, ['C07_next_prefix_safe', 'C07_next_prefix_none', 'C07_determined_scan', 'C07_prompt_one_byte', 'C07_no_test_acts'])
     fss = ['tc', 'sm']
     sets = ce.compiled_sets(tier, fss)
     failing, drv = cert_stage(res, tier, ['dfa_ok', 'sim_ok', 'exact_ok', 'prompt_ok'], [], 'C07', curated_caps(sets, 'tc'))
@@ -221,7 +227,7 @@ def check_C07(tier):
     res.cov['rule'] = ('for every compiled definition, generated inputs up to a length bound and EVERY split point (char boundaries for str): real partial lexer on the prefix '
                        'vs real one-shot lexer on the whole input (items committed before None, empty span at None, position of None) and vs the model; '
                        'promptness: certificate prompt_ok on every paired state of every corpus definition')
-    res.assumptions += ASSUME_ENGINE + ['promptness is decided by the certificate prompt_ok (checker in Coq, evaluated per definition); its Prop-level reading (two extensions that differ) is argued in DESIGN.md, not yet a Coq theorem',
+    res.assumptions += ASSUME_ENGINE + ['promptness: C07_determined_scan + C07_prompt_one_byte give "determined => acts now or after any one more byte" under prompt_ok; the converse (a state that waits is not determined) is not stated as a theorem',
                                          'callbacks that bump beyond the prefix panic in the real code; the theorem quantifies over oracles and is vacuous for such calls']
     return res.finish('./vcheck C07 --tier ' + tier)
 
@@ -1669,7 +1675,7 @@ def check_C19(tier):
     pdir = cache_dir('c19probe')
     os.makedirs(os.path.join(pdir, 'src'), exist_ok=True)
     defs = []
-    for c in list(curated) + list(randcaps):
+    for c in list(curated) + list(randcaps)[:(100 if tier == 'quick' else 100000)]:
         if c.source:
             defs.append((c.id, c.source, c))
     lib = ['#![allow(dead_code, unused)]']
